@@ -774,9 +774,14 @@ fn run_inst<T: Sc>(line: &Line, idx: usize, pools: &Pools, opts: &Opts, rep: &mu
     }
 
     // ---------------- C06: weights = row scaling, applied once ----------------
-    if let Some(w) = inst.w.as_ref() {
+    // (instances without weights get a uniform weight vector different from one: all weights equal is
+    // not the same as no weights - residuals scale with them)
+    let uniform: Vec<T> = vec![T::of64(if idx % 4 < 2 { 3.0 } else { 0.25 }); inst.n];
+    let wref_c06: Option<&[T]> = Some(inst.w.as_deref().unwrap_or(&uniform));
+    if let Some(w) = wref_c06.map(|w| w.to_vec()).as_ref() {
+        let wref = wref_c06;
         let ev = EpsVar::User;
-        let flav = tag(idx, &fam, T::NAME, Kind::Table, inst.s >= 2, false, ev);
+        let flav = format!("{}{}", tag(idx, &fam, T::NAME, Kind::Table, inst.s >= 2, false, ev), if inst.w.is_none() { " uniform-weights" } else { "" });
         let mrhs = inst.s >= 2;
         let scaled_table = Arc::new(inst.table.row_scaled(w));
         let yscaled = DMatrix::from_fn(inst.n, inst.s, |i, s| w[i] * inst.y[(i, s)]);
